@@ -11,6 +11,7 @@ import (
 	"sync/atomic"
 
 	jlib "github.com/jsightapi/jsight-schema-go-library"
+	"github.com/jsightapi/jsight-schema-go-library/notations/jschema"
 )
 
 // txt decodes the spec's tagged texts ({k:"s",s} | {k:"cp",c} | {k:"re",re} | {k:"join",parts}) or a plain string.
@@ -157,6 +158,8 @@ func sameRules(w, g []astRule) bool {
 	return true
 }
 
+var poisonN int64
+
 func init() {
 	register("c16replay", func(args []string) int {
 		fs := flag.NewFlagSet("c16replay", flag.ExitOnError)
@@ -177,6 +180,10 @@ func init() {
 		var n, mism, rejected int64
 		parallelFor(len(cases), func(i int) {
 			c := cases[i]
+			// the loaders are pooled: a load that failed half-way (a note between a key and a value that never came, an open annotation,
+			// an open rule list) must leave nothing behind for the schema loaded next
+			poison := []string{"{\n  \"a\": // a note left behind\n ]", "{\n  \"a\": 1 // {min: 0} - left behind\n  \"b\"", "1 /* {enum: [1, // left\n", "{\n \"k\": 1, // {or: [{min: 0"}
+			_ = jschema.New("poison", poison[int(atomic.AddInt64(&poisonN, 1))%len(poison)]).Check()
 			s, rr, err := buildSchema(c.Schema, c.Env, false, true)
 			var ast jlib.ASTNode
 			o := outcomeOf(err)
